@@ -49,6 +49,15 @@ def row_theory_axioms():
         T.ForAll(
             [r, s], z3.Not(z3.And(rlt(r, s), rlt(s, r))), [rlt(r, s)]
         ),
+        # extensionality, instantiated wherever a contract mentions rdiff(r, s)
+        T.ForAll(
+            [r, s],
+            z3.Implies(
+                z3.And(r != s, rlen(r) == rlen(s)),
+                z3.And(0 <= rdiff(r, s), rdiff(r, s) < rlen(r), relem(r, rdiff(r, s)) != relem(s, rdiff(r, s))),
+            ),
+            [rdiff(r, s)],
+        ),
     ]
 
 
@@ -369,6 +378,9 @@ def astype(ctx: Ctx, a: Arr, dtype):
 
 
 def _as_index_arr(ctx, k):
+    if isinstance(k, (list, tuple)) and k and all(is_arr(e) for e in k):
+        # a nested sequence of index arrays is itself an index array (one more leading axis)
+        return stack_rows(ctx, list(k))
     if isinstance(k, (list, tuple)) and all(T.is_scalar(e) for e in k):
         return Arr.from_list(list(k), "int" if not all(isinstance(e, bool) for e in k) or not k else "bool")
     if isinstance(k, range):
@@ -598,6 +610,7 @@ def select_true(ctx: Ctx, m: Arr):
         )
     )
     m.ghost[key] = (K, sel, rk)
+    ctx.log_ghost("select", (K, sel, rk))
     return m.ghost[key]
 
 
@@ -1133,6 +1146,12 @@ def np_unique_rows(ctx: Ctx, a: Arr, return_index=False, return_inverse=False):
     )
     for ax in row_theory_axioms():
         ctx.assume(ax)
+    # pigeonhole (lemma L8): fewer unique rows than rows means two equal rows exist
+    d1, d2 = T.fresh_int("dup1"), T.fresh_int("dup2")
+    ctx.assume(
+        z3.Or(m == T.tz(n), z3.And(0 <= d1, d1 < d2, T.lt(d2, n), rf(d1) == rf(d2))),
+        trusted="lemma:L8 pigeonhole (n distinct values in 0..n-1 are exactly 0..n-1; fewer unique rows than rows => a repeated row)",
+    )
     uniq = Arr((m, c), lambda i, q: a.fn(idx(T.tz(i)), q), a.dtype)
     uniq.rowfn = lambda t_: rf(idx(T.tz(t_)))
     uniq.rows_sorted_distinct = True
@@ -1147,6 +1166,7 @@ def np_unique_rows(ctx: Ctx, a: Arr, return_index=False, return_inverse=False):
         iv.in_range_of = m
         out.append(iv)
     uniq.ghost["unique"] = (m, idx, inv)
+    ctx.log_ghost("unique", (m, idx, inv))
     return out[0] if len(out) == 1 else tuple(out)
 
 
@@ -1155,6 +1175,11 @@ def np_argsort(ctx: Ctx, a: Arr):
     (ties in original order), and its inverse as ghost."""
     if a.ndim != 1:
         raise PathAbort("argsort of a non-vector", ctx.cur_line)
+    ckey = ("argsort", a.version)
+    if ckey in a.ghost:
+        return a.ghost[ckey]
+    a0 = a
+    a = snap(a)
     n = a.shape[0]
     if getattr(a, "is_arange", None) is not None or getattr(a, "sorted_strict", False):
         # stable argsort of a strictly increasing vector is the identity permutation
@@ -1164,6 +1189,7 @@ def np_argsort(ctx: Ctx, a: Arr):
         r.distinct = True
         r.sorted_strict = True
         r.ghost["perm"] = (lambda t: t, lambda t: t)
+        ctx.log_ghost("argsort", (lambda t: t, lambda t: t))
         return r
     p = T.fresh_fun("asort", I, I)
     pinv = T.fresh_fun("asortinv", I, I)
@@ -1197,10 +1223,31 @@ def np_argsort(ctx: Ctx, a: Arr):
             [[p(t), p(u)]],
         )
     )
+    if a.dtype == "int" and not (getattr(a, "in_range_of", None) is not None and getattr(a, "distinct", False)):
+        # pigeonhole (lemma L8), Skolemised: either the sorted values are 0..n-1, or some value is
+        # outside 0..n-1, or two values coincide
+        w1, w2, w3 = T.fresh_int("w"), T.fresh_int("w"), T.fresh_int("w")
+        ctx.assume(
+            z3.Or(
+                T.ForAll([t], z3.Implies(z3.And(0 <= t, T.lt(t, n)), T.tz(a.fn(p(t))) == t), [p(t)]),
+                z3.And(0 <= w1, T.lt(w1, n), z3.Or(T.tz(a.fn(w1)) < 0, T.tz(T.ge(a.fn(w1), n)))),
+                z3.And(0 <= w2, w2 < w3, T.lt(w3, n), T.tz(a.fn(w2)) == T.tz(a.fn(w3))),
+            ),
+            trusted="lemma:L8 pigeonhole (n distinct values in 0..n-1 are exactly 0..n-1; fewer unique rows than rows => a repeated row)",
+        )
+    rng_ = getattr(a, "in_range_of", None)
+    if rng_ is not None and getattr(a, "distinct", False):
+        # pigeonhole (lemma L8): n distinct values from 0..n-1, sorted, are 0, 1, ..., n-1
+        ctx.assume(
+            z3.Implies(T.tz(T.eq(n, rng_)), T.ForAll([t], z3.Implies(z3.And(0 <= t, T.lt(t, n)), T.tz(a.fn(p(t))) == t), [p(t)])),
+            trusted="lemma:L8 pigeonhole (n distinct values in 0..n-1 are exactly 0..n-1; fewer unique rows than rows => a repeated row)",
+        )
     r = Arr((n,), lambda i: p(T.tz(i)), "int")
     r.in_range_of = n
     r.distinct = True
     r.ghost["perm"] = (p, pinv)
+    ctx.log_ghost("argsort", (p, pinv))
+    a0.ghost[ckey] = r
     return r
 
 
@@ -1267,6 +1314,8 @@ def np_setdiff1d(ctx: Ctx, a, b):
         a = flatten(ctx, a)
     if b.ndim != 1:
         b = flatten(ctx, b)
+    if isinstance(a.shape[0], int) and a.shape[0] == 0:
+        return Arr((0,), lambda i: 0, a.dtype)
     a = snap(a)
     inb = snap(np_isin(ctx, a, b))  # bool array over a
     n = a.shape[0]
@@ -1305,6 +1354,7 @@ def np_setdiff1d(ctx: Ctx, a, b):
     )
     r = Arr((m,), lambda i: a.fn(pos(T.tz(i))), a.dtype)
     r.ghost["setdiff"] = (m, pos, slot)
+    ctx.log_ghost("setdiff1d", (m, pos, slot))
     r.sorted_strict = True
     return r
 
